@@ -309,33 +309,34 @@ impl Lockfile {
     pub fn paths(&self, base_dst: &Path) -> Result<Vec<PathSet>, MetadataError> {
         let mut ret = Vec::new();
 
-        for locks in self.lock_table.values() {
-            for lock in locks {
-                let metadata = self.get_metadata(&lock.source)?;
-                let path = metadata.project_path();
-                // Analyzed only for the build root (`Metadata::paths`).
-                let examples = path.join("examples");
+        // `lock_table` is a HashMap: walk the locks in a deterministic order so
+        // that the analysis order of dependency files (and everything derived
+        // from it, e.g. the filelist order) does not change from run to run.
+        for lock in self.projects() {
+            let metadata = self.get_metadata(&lock.source)?;
+            let path = metadata.project_path();
+            // Analyzed only for the build root (`Metadata::paths`).
+            let examples = path.join("examples");
 
-                for src in &veryl_path::gather_files_with_extension(&path, "veryl", false)? {
-                    if src.starts_with(&examples) {
-                        continue;
-                    }
-                    let Ok(rel) = src.strip_prefix(&path) else {
-                        return Err(MetadataError::InvalidSourceLocation(src.clone()));
-                    };
-                    let mut dst = base_dst.join(&lock.name);
-                    dst.push(rel);
-                    dst.set_extension("sv");
-                    let mut map = dst.clone();
-                    map.set_extension("sv.map");
-                    ret.push(PathSet {
-                        prj: lock.name.clone(),
-                        src: src.to_path_buf(),
-                        dst,
-                        map,
-                        example: false,
-                    });
+            for src in &veryl_path::gather_files_with_extension(&path, "veryl", false)? {
+                if src.starts_with(&examples) {
+                    continue;
                 }
+                let Ok(rel) = src.strip_prefix(&path) else {
+                    return Err(MetadataError::InvalidSourceLocation(src.clone()));
+                };
+                let mut dst = base_dst.join(&lock.name);
+                dst.push(rel);
+                dst.set_extension("sv");
+                let mut map = dst.clone();
+                map.set_extension("sv.map");
+                ret.push(PathSet {
+                    prj: lock.name.clone(),
+                    src: src.to_path_buf(),
+                    dst,
+                    map,
+                    example: false,
+                });
             }
         }
 
@@ -456,7 +457,11 @@ impl Lockfile {
 
         // breadth first search because root has top priority of name
         let mut dependencies_metadata = Vec::new();
-        for (name, dep) in &metadata.dependencies {
+        // `dependencies` is a HashMap: visit it in name order so that the
+        // suffixes given to conflicting project names are reproducible.
+        let mut sorted_dependencies: Vec<_> = metadata.dependencies.iter().collect();
+        sorted_dependencies.sort_by(|a, b| a.0.cmp(b.0));
+        for (name, dep) in sorted_dependencies {
             let dependency = self.resolve_dependency(metadata, name, dep, root, root_metadata)?;
             let metadata = self.get_metadata(&dependency.source)?;
             let mut name = dependency.name.clone();
@@ -503,7 +508,9 @@ impl Lockfile {
             }
 
             let mut dependencies = Vec::new();
-            for (name, dep) in &metadata.dependencies {
+            let mut sorted_dependencies: Vec<_> = metadata.dependencies.iter().collect();
+            sorted_dependencies.sort_by(|a, b| a.0.cmp(b.0));
+            for (name, dep) in sorted_dependencies {
                 let dependency =
                     self.resolve_dependency(&metadata, name, dep, root, root_metadata)?;
                 // project local name is not required to check name_table
